@@ -11,6 +11,9 @@ Decided (structural necessary conditions, DESIGN §4 C12):
                objective differentiates (w.r.t. the model value) to the per-entry term that is
                pushed through MTTKRP / the sparse accumulation, under every None/not-None
                configuration of the optional weights / correction range
+  SPLIT        tensor.mttkrps (all N products in two sweeps around a split mode): the factor blocks are contiguous - the in-between slice of
+               sweep 1 ends where the tail Khatri-Rao block begins, sweep 2 starts where the head block ends, in-between slices start at k + 1
+               (integer terms; an off-by-one bound is a definite defect: a factor contracted twice or never)
 Not decided: all-modes vs per-mode equality, sampled == exact with unit weights, MTTKRP numerics.
 """
 from __future__ import annotations
@@ -164,7 +167,7 @@ def check(prog: Program, res: Result, tier: str) -> None:
         "comparison masks are piecewise constant in the model value",
         "numpy element-wise functions have their textbook derivatives",
     ]
-    res.floors = {"GRAD-deriv": 10, "REG-exh": 10, "DOM-lb": 8, "FG-agree": 6, "KR": 3, "EO-1": 4}
+    res.floors = {"GRAD-deriv": 10, "REG-exh": 10, "DOM-lb": 8, "FG-agree": 6, "KR": 3, "EO-1": 4, "SPLIT": 1}
     setup = prog.func("gcp.fg_setup.setup")
     mi = prog.modules["pyttb.gcp.fg_setup"]
     consts, constvals = _module_consts(prog, "pyttb.gcp.handles")
@@ -293,6 +296,7 @@ def check(prog: Program, res: Result, tier: str) -> None:
     helpers = {"tensor.tensor.mttkrps", "tensor.mttv_left", "tensor.mttv_mid"}
     E.kr(prog, res, lambda fi: fi.short in helpers, exempt=set())
     E.eo1(prog, res, lambda fi: fi.short in helpers)
+    _split_cover(prog, res)
     fg = prog.func("gcp.fg.evaluate")
     desc = "the gradient tensor is pushed through mttkrps with the model's own factor list"
     c = [x for x in ast.walk(fg.node) if isinstance(x, ast.Call) and isinstance(x.func, ast.Attribute) and x.func.attr == "mttkrps"]
@@ -302,6 +306,80 @@ def check(prog: Program, res: Result, tier: str) -> None:
         res.bad("FG-agree", fg.short, desc, prog.loc(fg, c[0]), f"mttkrps receives {ast.unparse(c[0].args[0]) if c[0].args else 'nothing'}")
     else:
         res.undecided("FG-agree", fg.short, desc, prog.loc(fg))
+
+
+def _split_cover(prog: Program, res: Result) -> None:
+    """tensor.mttkrps computes all N products in two sweeps around a split mode s.  Sweep 1 starts from the data contracted with the TAIL block
+    of factors (khatrirao(*U[L:])) and, for mode k, contracts the modes k+1 .. X-1 in between (mttv_mid(W, U[k+1:X])); sweep 2 starts from the
+    HEAD block (khatrirao(*U[:H])) and runs over k = a, a+1, ...  For every mode k to receive ALL factors but its own the blocks must be
+    contiguous: X == L (the in-between slice ends where the tail block begins) and a == H (the second sweep starts where the head block ends);
+    the in-between slices start at k + 1.  Compared as integer terms; an off-by-one is a definite defect."""
+    import sympy as sp
+    fi = prog.func("tensor.tensor.mttkrps")
+    desc = "the factor blocks of the two sweeps of mttkrps are contiguous (every mode receives all factors but its own)"
+
+    def term(e):
+        if e is None:
+            return None
+        e = fi.resolve(e)
+        if isinstance(e, ast.Constant) and isinstance(e.value, int) and not isinstance(e.value, bool):
+            return sp.Integer(e.value)
+        if isinstance(e, ast.BinOp) and isinstance(e.op, (ast.Add, ast.Sub)):
+            a, b = term(e.left), term(e.right)
+            if a is None or b is None:
+                return None
+            return a + b if isinstance(e.op, ast.Add) else a - b
+        return sp.Symbol(ast.unparse(e).replace(" ", ""), integer=True)
+
+    def starred_slice(c):
+        if len(c.args) == 1 and isinstance(c.args[0], ast.Starred) and isinstance(c.args[0].value, ast.Subscript) \
+                and isinstance(c.args[0].value.slice, ast.Slice):
+            return c.args[0].value.slice
+        return None
+    krs = sorted([c for c in ast.walk(fi.node) if isinstance(c, ast.Call) and (dotted(c.func) or "").split(".")[-1] == "khatrirao"],
+                 key=lambda c: c.lineno)
+    loops = [st for st in fi.node.body if isinstance(st, ast.For)]
+    mids = []
+    for lp in loops:
+        m = [c for c in ast.walk(lp) if isinstance(c, ast.Call) and (dotted(c.func) or "").split(".")[-1] == "mttv_mid" and len(c.args) >= 2
+             and isinstance(fi.resolve(c.args[1]), ast.Subscript) and isinstance(fi.resolve(c.args[1]).slice, ast.Slice)]
+        if m and isinstance(lp.target, ast.Name) and isinstance(lp.iter, ast.Call) and dotted(lp.iter.func) == "range":
+            mids.append((lp, fi.resolve(m[0].args[1]).slice))
+    if len(krs) != 2 or len(mids) != 2 or any(starred_slice(c) is None for c in krs):
+        res.undecided("SPLIT", fi.short, desc, prog.loc(fi), f"{len(krs)} Khatri-Rao blocks, {len(mids)} sweeps with an in-between slice (2 and 2 on the reviewed tree)")
+        return
+    tail, head = starred_slice(krs[0]), starred_slice(krs[1])
+    (lp1, sl1), (lp2, sl2) = mids
+
+    def absent(x):
+        x = fi.resolve(x) if x is not None else None
+        return x is None or (isinstance(x, ast.Constant) and x.value is None)
+    facts = []
+    k1, k2 = sp.Symbol(lp1.target.id, integer=True), sp.Symbol(lp2.target.id, integer=True)
+    start2 = term(lp2.iter.args[0]) if len(lp2.iter.args) >= 2 else sp.Integer(0)
+    facts.append(("the in-between slice of sweep 1 ends where the tail block begins", term(sl1.upper), term(tail.lower), lp1))
+    facts.append(("the in-between slice of sweep 1 starts after the mode being computed", term(sl1.lower), k1 + 1, lp1))
+    facts.append(("sweep 2 starts where the head block ends", start2, term(head.upper), lp2))
+    facts.append(("the in-between slice of sweep 2 starts after the mode being computed", term(sl2.lower), k2 + 1, lp2))
+    if not absent(tail.upper) or (not absent(head.lower) and term(head.lower) != 0) or not absent(sl2.upper):
+        res.undecided("SPLIT", fi.short, desc, prog.loc(fi), "block bounds not of the reviewed form (tail U[L:], head U[:H], second in-between slice U[k+1:])")
+        return
+    bad, und = [], []
+    for what, a, b, at in facts:
+        if a is None or b is None:
+            und.append(what)
+            continue
+        d = sp.simplify(a - b)
+        if d == 0:
+            continue
+        (bad if d.is_number else und).append(f"{what}: {a} vs {b}")
+    if bad:
+        res.bad("SPLIT", fi.short, desc, prog.loc(fi, lp1), "; ".join(bad) + " — a factor is contracted twice or not at all for the modes of that sweep "
+                "(visible only when the split mode is not the first one: non-cubical 3-way or >= 4-way data)")
+    elif und:
+        res.undecided("SPLIT", fi.short, desc, prog.loc(fi, lp1), "; ".join(und))
+    else:
+        res.ok("SPLIT", fi.short, desc, prog.loc(fi, lp1), f"tail block from {term(tail.lower)}, head block up to {term(head.upper)}")
 
 
 def _shared_terms(prog, fh, gh, bind):
